@@ -81,6 +81,10 @@ class Facts:
         if _os.environ.get("VERIF_NO_THREAD") != "1" and self.crate == "grenad" and self.version != "0.4.7" and (self.inlined or self.raw.get("_inlined_closures")):
             from . import thread
             self.threaded = thread.thread(self.raw)
+        if _os.environ.get("VERIF_NO_REFFWD") != "1" and self.crate == "grenad" and self.version != "0.4.7" and self.inlined:
+            # helpers spliced into their callers access the caller's places through the references they were handed
+            from . import refforward
+            self.forwarded = refforward.forward(self.raw, {caller for caller, callee in self.inlined})
         self.bodies = [Body(b, self) for b in self.raw["bodies"]]
         self.by_path = defaultdict(list)
         for b in self.bodies:
